@@ -51,6 +51,13 @@ def run(tier):
                  ["--memory-mode", "Shared_Sram", "--system-config", "Ethos_U65_Embedded", "--config", compiles.CONFIG_INI]][rep % 3]
         jobs.append({"family": "one_channel_tail", "seed": "c02o-%d-%d" % (vlib.seed(), rep),
                      "args": ["--accelerator-config", "ethos-u65-512"] + extra, "capture": True})
+    # a RESHAPE that has to be a copy (its input has other consumers), channel counts off the 16-channel brick: the copy's
+    # byte count must be that of the destination, whatever formats the neighbours prefer; destination at the top of the arena
+    for rep in range(9 if tier == "quick" else 180):
+        extra = [["--config", compiles.CONFIG_INI, "--system-config", "Ethos_U55_High_End_Embedded", "--memory-mode", "Sram_Only"],
+                 ["--config", compiles.CONFIG_INI, "--system-config", "Ethos_U55_High_End_Embedded", "--memory-mode", "Shared_Sram"], []][rep % 3]
+        jobs.append({"family": "memcpy_reshape", "seed": "c02r-%d-%d" % (vlib.seed(), rep),
+                     "args": ["--accelerator-config", ["ethos-u55-128", "ethos-u55-64", "ethos-u55-256"][(rep // 3) % 3]] + extra, "capture": True})
     jobs = compiles.corpus_jobs() + jobs
     results = compiles.run_all(jobs, timeout=900)
     programs = 0
